@@ -2,6 +2,7 @@
 from __future__ import annotations
 
 import copy
+import re
 
 from harness.lib import CaseFile, qlist, qlit, qopt
 from harness.props import pinch_common as pc
@@ -36,9 +37,12 @@ def trec(r, hu_names, cu_names):
 
 
 # ---- transformations: each returns (twin problem, mode, k, d, record-name map, utility-name map) ----
-def t_permute(rng, p):
+def t_permute(rng, p, reverse=False):
     q = copy.deepcopy(p)
-    rng.shuffle(q["streams"])
+    if reverse:
+        q["streams"].reverse()
+    else:
+        rng.shuffle(q["streams"])
     rng.shuffle(q["utilities"])
     return q, 0, 1.0, 0.0, None, None
 
@@ -128,6 +132,12 @@ def mirror_both_glide(prob, a, b):
     lim = 0.1 * cp + 1e-6
     return (abs(b["Qh"] - a["Qc"]) <= lim and abs(b["Qc"] - a["Qh"]) <= lim and abs(b["Qr"] - a["Qr"]) <= lim
             and abs(sum(b["hu"].values()) - sum(a["cu"].values())) <= lim and abs(sum(b["cu"].values()) - sum(a["hu"].values())) <= lim)
+
+
+def same_key_streams(prob):
+    """Trigger of finding D57: two input streams share (zone, name), the only key the code sorts by before generating O<k> zones."""
+    keys = [(x["zone"], x["name"]) for x in prob["streams"]]
+    return len(set(keys)) < len(keys)
 
 
 def grid_slack(prob, mode, d):
@@ -255,6 +265,10 @@ def run(ctx):
                       utilities=[dict(name="HPS", type="Hot", t_supply=217.0, t_target=215.0, heat_flow=0.0, dt_cont=5.0, htc=1.0, price=30.0),
                                  dict(name="LPS", type="Hot", t_supply=164.49975, t_target=162.49975, heat_flow=0.0, dt_cont=5.0, htc=1.0, price=20.0),
                                  dict(name="CW", type="Cold", t_supply=102.4995, t_target=114.4995, heat_flow=0.0, dt_cont=2.5, htc=1.0, price=2.0)]), None))
+    # D57 witness (open finding): same (zone, name) twice; with unit-operation targeting the records O1/O2 swap with the listing order
+    base.append((dict(streams=[dict(zone="A", name="S", t_supply=200.0, t_target=100.0, heat_flow=1000.0, dt_cont=5.0, htc=1.0),
+                               dict(zone="A", name="S", t_supply=50.0, t_target=150.0, heat_flow=800.0, dt_cont=5.0, htc=1.0)],
+                      utilities=[], options=dict(DO_DIRECT_OPERATION_TARGETING=True)), dict(permute_reverse=True, only=["permute"])))
     # regression of a corrected false alarm (DESIGN 12.3 item 12): a 0.000125 K wide stream (CP 40000) translated by an off-lattice amount
     base.append((dict(streams=[dict(zone="P0", name="S0_0", t_supply=195.0, t_target=55.0, heat_flow=105.0, dt_cont=5.0, htc=0.5),
                                dict(zone="P0", name="N1_0", t_supply=60.0, t_target=190.0, heat_flow=260.0, dt_cont=5.0, htc=1.0),
@@ -272,7 +286,14 @@ def run(ctx):
             ctx.fail("service-raises", f"{type(e).__name__}: {e}", suite="twins", input=prob, predicate="service returns")
             continue
         for tname, fn in TWINS:
-            tw = fn(ctx.rng, prob, m["translate_d"]) if (tname == "translate" and m and "translate_d" in m) else fn(ctx.rng, prob)
+            if m and "only" in m and tname not in m["only"]:
+                continue          # (unit-operation records O<k> are not comparable across a split: the pinned case is about the order only)
+            if tname == "translate" and m and "translate_d" in m:
+                tw = fn(ctx.rng, prob, m["translate_d"])
+            elif tname == "permute" and m and m.get("permute_reverse"):
+                tw = fn(ctx.rng, prob, reverse=True)
+            else:
+                tw = fn(ctx.rng, prob)
             if tw is None:
                 continue
             q, mode, k, d, zmap, umap = tw
@@ -314,6 +335,11 @@ def run(ctx):
         ctx.sample(dict(transformation=tname, record=name, original=(a["Qh"], a["Qc"], a["Qr"]), twin=(b["Qh"], b["Qc"], b["Qr"])), limit=7)
         if v[0] == 0:
             agree += 1
+            continue
+        if tname == "permute" and re.match(r"O\d+/", name) and same_key_streams(prob):
+            ctx.fail("permute-same-key-generated-names", f"permute: record {name}: two streams with the same zone and name swap their generated "
+                     "unit-operation zones O<k> when listed in the other order", suite="twins",
+                     input=dict(problem=prob, twin=q, transformation=tname, record=name), impl_output=dict(original=a, twin=b), predicate="c12_b")
             continue
         if undersupplied_cold_utility(prob, ra) or undersupplied_cold_utility(q, rb):
             ctx.fail("glide-utility-undersupplied", f"{tname}: record {name}: one of the two descriptions has a zone whose cold user utility is "
